@@ -41,7 +41,12 @@ RULE = ('read: fixed table of every shape the property names (length prefixes 10
         'length, unknown keys) x values of every decoded type and hostile text (non-ASCII letters, full-width / Arabic-Indic / '
         'superscript digits, NUL, newlines, bidi/BOM/zero-width, astral, empty, whitespace, 300..70000 characters, path-like, '
         'MD5 near misses, URL-like with hostile ports and hosts) x single-/multi-file x minimal/full layout + random MD5 near '
-        'misses + exhaustive strings over {d,l,e,i,1,0,:,-,a} up to length 4 '
+        'misses + number ladder: 0, 1, 2, 16383..16385, 2^31-1..2^31+1, 2^32, 2^53-1..2^53+1, 2^63-1..2^63+1, 2^64, 10^308, 2^1023, '
+        '2^1024-1, 2^1024, 2^1024+1, 2^1025, 10^309, 10^400, 2^2048, 10^4298, 10^4299, 10^4300-1, 10^4300 and their negatives as '
+        'length, files[0|1].length, piece length (the number, 16384 x it, the multiples of 16384 around it), creation date and '
+        'private of single- and multi-file torrents, each as it is and fitted (piece length chosen so that the torrent validates '
+        'and every later check and export is reached), 19 pairs of file lengths whose sum crosses a border + short runs of 26 byte '
+        'units at start / middle / end of the text of 19 fields + exhaustive strings over {d,l,e,i,1,0,:,-,a} up to length 4 '
         '(6 thorough) + truncation of seed torrents at every offset + seeded fuzz (bit flips, structure mutations, wrong '
         'types, hostile value at a random place, spliced length prefixes, deep values, slice delete/dup/reverse, random bytes), '
         'each with validate on/off and through bytes / BytesIO / Torrent.read(file), followed by validate(), dump(), '
@@ -49,7 +54,11 @@ RULE = ('read: fixed table of every shape the property names (length prefixes 10
         'IGNORECASE specials, xl numerals, good/bad URLs in tr/ws/xs/as) + size dimensions (0, 1, 2, 10, 100, 999..1002, 3000 '
         '[thorough: ..20000] `&`-separated fields in 24 shapes: blank, without "=", repeated / distinct tr ws dn kt xl xt x_ unknown, '
         '`;`, mixed; single values of 4300..100000 characters; 40 percent-escapes valid/invalid/non-UTF-8/encoded separators in '
-        '24 positions incl. parameter names) + grammar (2 % with ~100..2500 fields) + mutations + random. '
+        '24 positions incl. parameter names) + runs (1, 40) of 63 units (every str.isspace() class, BOM / zero-width / LRM / RLM, '
+        'escapes, separators, digits, hash letters, URL punctuation) at 18 positions + grammar (2 % with ~100..2500 fields) + '
+        'mutations + random. cost: 25 size families + repeated-unit families (unit x position x entry point: 63 units x 18 magnet '
+        'positions, 26 byte units x 3 positions x 19 torrent fields, 27 shapes of the encoding: digit runs in prefixes and '
+        'integers, nesting, long keys, many small items), sizes n, 4n, 16n, process CPU time in a forked child under RLIMIT_CPU. '
         'non-trivial = read: the decoder does not stop with a plain DecodingError (the input decodes, or a primitive '
         'raises ValueError / OverflowError / MemoryError); magnet: urlparse gave scheme "magnet"; cost points always; '
         'distinct = distinct (input, validate, how, recursion limit) resp. distinct URI')
@@ -321,9 +330,72 @@ def _one_read(c):
     return obs
 
 
-def _run_read_chunk(cases):
+CASE_CPU_CAP = 60            # CPU seconds one judged case may use (bound for the largest input, 10 MB: 200 s; typical: ms)
+CASE_MAX_KILLS = 2           # after this many killed cases the rest of a chunk is skipped (the kills are violations)
+
+
+def _case_cap(c):
+    """CPU seconds a judged case may use: 4 x the claimed bound, at least 10 s, at most CASE_CPU_CAP"""
+    ln = len(c['x']) if 'x' in c else len(c['uri'].encode('utf8', 'surrogatepass'))
+    return int(min(CASE_CPU_CAP, max(10, 4 * (TIME_C * ln + TIME_D))))
+
+
+def _run_isolated(one, cases):
+    """run `one(case)` for every case in a forked child whose RLIMIT_CPU is moved forward before each case: an input on
+    which the code under test hangs (catastrophic regular expression, endless loop) costs CASE_CPU_CAP seconds instead of
+    blocking the chunk.  A killed case comes back as {'timeout': True}; after CASE_MAX_KILLS kills the rest of the chunk
+    comes back as {'skipped': True}"""
+    import pickle
     _worker_init()
-    return [_one_read(c) for c in cases]
+    out = [None] * len(cases)
+    i = kills = 0
+    while i < len(cases) and kills < CASE_MAX_KILLS:
+        r, w = os.pipe()
+        pid = os.fork()
+        if pid == 0:
+            try:
+                os.close(r)
+                f = os.fdopen(w, 'wb')
+                for j in range(i, len(cases)):
+                    resource.setrlimit(resource.RLIMIT_CPU, (int(time.process_time()) + _case_cap(cases[j]) + 1,
+                                                             resource.RLIM_INFINITY))
+                    pickle.dump(('start', j), f)
+                    f.flush()
+                    pickle.dump(('res', j, one(cases[j])), f)
+                    f.flush()
+            finally:
+                os._exit(0)
+        os.close(w)
+        started = None
+        progressed = False
+        with os.fdopen(r, 'rb') as f:
+            while True:
+                try:
+                    msg = pickle.load(f)
+                except (EOFError, pickle.UnpicklingError):
+                    break
+                if msg[0] == 'start':
+                    started = msg[1]
+                else:
+                    out[msg[1]] = msg[2]
+                    started = None
+                    i = msg[1] + 1
+                    progressed = True
+        os.waitpid(pid, 0)
+        if started is not None:
+            out[started] = {'timeout': True}
+            kills += 1
+            i = started + 1
+        elif not progressed:
+            break
+    for j in range(len(cases)):
+        if out[j] is None:
+            out[j] = {'skipped': True}
+    return out
+
+
+def _run_read_chunk(cases):
+    return _run_isolated(_one_read, cases)
 
 
 def _bmp(v):
@@ -344,6 +416,7 @@ def _magnet_oracles(uri):
     except ValueError:
         return o
     o['urlparse'] = [info.scheme, info.query]
+    o['stripped'] = uri.strip()
     qs = urllib.parse.parse_qs(info.query)
     # unquote() of every name / value that holds a '%' (after '+' -> ' '), for the modelled parse_qs
     pct = {}
@@ -391,8 +464,7 @@ def _one_magnet(c):
 
 
 def _run_magnet_chunk(cases):
-    _worker_init()
-    return [_one_magnet(c) for c in cases]
+    return _run_isolated(_one_magnet, cases)
 
 
 def _pmap(fn, chunks, timeout):
@@ -425,7 +497,18 @@ def _run_all(fn, cases, timeout, ctx, what):
     out = []
     for ch, r in zip(chunks, res):
         if r is not None:
-            out.extend(r)
+            for c, o in zip(ch, r):
+                if o.get('timeout'):
+                    ctx.violation(f'{what}: no result within {_case_cap(c)} s of CPU time for an input of '
+                                  f'{len(c.get("x", c.get("uri", "")))} bytes (bound {TIME_C}*len+{TIME_D})',
+                                  _case_json(c), expected='time <= c*len + d', observed='killed by RLIMIT_CPU',
+                                  finding_matchers=MATCHERS)
+                    out.append(None)
+                elif o.get('skipped'):
+                    ctx.dist['skipped-after-%d-killed-cases-in-the-chunk' % CASE_MAX_KILLS] += 1
+                    out.append(None)
+                else:
+                    out.append(o)
             continue
         for c in ch:
             r1 = _pmap(fn, [[c]], 60)[0]
@@ -632,6 +715,9 @@ def evaluate_magnet(ctx, drv, cases):
             continue
         model = m['model']
         ctx.dist['magnet-fields:' + _bucket(m['numFields'])] += 1
+        if not m['stripAgree'] or m['stripSteps'] > len(c['uri']) + 2:
+            ctx.machinery_error('the Lean model of str.strip() disagrees with CPython on this string, or its step count exceeds '
+                                'len+2 (Model/PyStrip.lean is wrong / contradicts C08_strip_steps)', case)
         if not m['qsAgree']:
             ctx.machinery_error('the Lean model of urllib.parse.parse_qs disagrees with the standard library on this query '
                                 '(Model/QueryString.lean is wrong)', case)
@@ -730,7 +816,8 @@ def _measure_child(job):
     if fam == 'raw':
         data, n = n, len(n)
     else:
-        data = _fam_read(fam, n) if fam.startswith('read/') else _fam_magnet(fam, n)
+        data = _fam_unit(fam, n) if fam.startswith('unit/') else \
+            _fam_read(fam, n) if fam.startswith('read/') else _fam_magnet(fam, n)
     r, w = os.pipe()
     pid = os.fork()
     if pid == 0:
@@ -841,6 +928,248 @@ def cost_checks(ctx):
                                   {'family': fam, 'n': b['n'], 'len': b['len'], 'what': 'scaling'},
                                   expected='linear', observed={'small': a, 'large': b}, finding_matchers=MATCHERS)
     ctx.notes['cost_table'] = table
+
+
+# ---------------------------------------------------------------------- repeated-unit scaling families (round 3)
+# One character class repeated n times at one position of one value, for both entry points; sizes n, 4n, 16n; process CPU
+# time; judged by the same linear rule as the families above (absolute bound c*len+d; 4x the input must not cost more than
+# 6.4x once the larger point takes >= 0.4 s, re-measured before alarming).  Each family runs in its own forked child under
+# RLIMIT_CPU, smallest size first, and stops at the first size that is flagged, so that a quadratic or exponential step costs
+# seconds, not hours.
+
+UNIT_CPU_CAP = 25            # CPU seconds one family may use before its child is killed (reported as a violation)
+UNIT_FLAG_LIMIT = 8          # stop measuring after this many flagged families (they are all reported)
+SLOW_FLOOR = 0.4             # s: below this a point is not used for the ratio rule
+RATIO_SLACK = 1.6            # allowed growth = RATIO_SLACK * growth of the input (families above)
+UNIT_SLACK = 2.0             # the same for the repeated-unit families: 4x the input may cost 8x (quadratic: 16x)
+
+
+def unit_family_names(thorough):
+    # quick: every white-space class at every position, every other unit at a third of the positions (in rotation)
+    names = ['unit/magnet/%s/%s' % (pos, u) for pi, pos in enumerate(ugen.MAGNET_POSITIONS) for ui, u in enumerate(ugen.UNITS)
+             if thorough or u in ugen.WS_UNITS or (pi + ui) % 3 == 0]
+    for field in ugen.READ_FIELDS:
+        for pos in ugen.READ_POSITIONS:
+            for u in ugen.BUNITS:
+                if thorough or pos == 'mid' or u in ('sp', 'auml', 'slash', 'zero', 'xff', 'f'):
+                    names.append('unit/read/%s/%s/%s' % (field, pos, u))
+    names += ['unit/read-struct/' + k for k in ugen.READ_STRUCT]
+    return names
+
+
+def _fam_unit(name, n):
+    p = name.split('/')
+    if p[1] == 'magnet':
+        return ugen.magnet_unit(p[2], p[3], n)
+    if p[1] == 'read':
+        return ugen.read_unit(p[2], p[3], p[4], n)
+    return ugen.READ_STRUCT[p[2]](n)
+
+
+def _unit_recipe(name, n):
+    p = name.split('/')
+    if p[1] == 'magnet':
+        u = ugen.UNITS[p[3]]
+        return 'harness.gen.untrusted.magnet_unit(%r, %r, %d): %s' % (
+            p[2], p[3], n, ugen.MAGNET_POSITIONS[p[2]]('<%r * %d>' % (u, max(1, n // len(u))), 'magnet:?xt=urn:btih:' + ugen.H40))
+    if p[1] == 'read':
+        u = ugen.BUNITS[p[4]]
+        path, pre, suf = ugen.READ_FIELDS[p[2]]
+        return 'harness.gen.untrusted.read_unit(%r, %r, %r, %d): full %s-file torrent with %s = %r, %r * %d at %s of it' % (
+            p[2], p[3], p[4], n, 'multi' if b'files' in path else 'single', ugen.path_label(path), pre + suf, u,
+            max(1, n // len(u)), p[3])
+    return 'harness.gen.untrusted.READ_STRUCT[%r](%d)' % (p[2], n)
+
+
+def _unit_call(torf, data):
+    """what is timed: the entry point and, for a torrent, everything the property lets a caller do with the result"""
+    if isinstance(data, str):
+        try:
+            torf.Magnet.from_string(data)
+            return 'ok'
+        except BaseException as e:   # noqa
+            return ekind(e)
+    try:
+        torf.Torrent.read_stream(data, validate=True)
+        k = 'ok'
+    except BaseException as e:   # noqa
+        k = ekind(e)
+    try:
+        t = torf.Torrent.read_stream(data, validate=False)
+    except BaseException:   # noqa
+        return k
+    for f in (t.validate, t.dump, lambda: t.dump(validate=False), lambda: t.infohash, t.magnet):
+        try:
+            f()
+        except BaseException:   # noqa
+            pass
+    return k
+
+
+def _unit_timed(torf, data):
+    t0 = time.process_time()
+    k = _unit_call(torf, data)
+    return time.process_time() - t0, k
+
+
+def _unit_family_in_child(torf, w, fam, sizes):
+    """runs in the forked child: one JSON line per size, stops at the first flagged size"""
+    prev = None
+    for n in sizes:
+        data = _fam_unit(fam, n)
+        ln = len(data) if isinstance(data, bytes) else len(data.encode('utf8', 'surrogatepass'))
+        os.write(w, (json.dumps({'family': fam, 'start': n, 'len': ln}) + '\n').encode())
+        t, k = _unit_timed(torf, data)
+        if t < 0.05:
+            t = min(t, _unit_timed(torf, data)[0], _unit_timed(torf, data)[0])
+        flag = None
+        if t > TIME_C * ln + TIME_D:
+            flag = 'absolute'
+        elif prev and t >= SLOW_FLOOR and t / max(prev['cpu'], 1e-4) > UNIT_SLACK * (ln / prev['len']):
+            # re-measure before alarming: noise only ever adds CPU time, so the minima are the better estimates
+            pt = min([prev['cpu']] + [_unit_timed(torf, prev['data'])[0] for _ in range(2)])
+            if t < 3.0 or t / max(pt, 1e-4) < 2.5 * (ln / prev['len']):
+                t = min(t, _unit_timed(torf, data)[0])
+            if t >= SLOW_FLOOR and t / max(pt, 1e-4) > UNIT_SLACK * (ln / prev['len']):
+                flag = 'superlinear'
+            prev['cpu'] = pt
+        os.write(w, (json.dumps({'family': fam, 'n': n, 'len': ln, 'cpu': t, 'kind': k, 'flag': flag,
+                                 'prev_cpu': prev and prev['cpu'], 'prev_len': prev and prev['len']}) + '\n').encode())
+        if flag:
+            break
+        prev = {'cpu': t, 'len': ln, 'data': data}
+    os.write(w, (json.dumps({'family': fam, 'done': True}) + '\n').encode())
+
+
+def _measure_unit_families(jobs):
+    """families [(name, sizes)…] one after the other in a forked child; each gets UNIT_CPU_CAP seconds of CPU time
+    (RLIMIT_CPU is moved forward before each one); when the child is killed the family that was running is reported as
+    killed and the rest continues in a new child.  Returns [{'family', 'points', 'killed_at'}…]"""
+    _worker_init()
+    torf = _WORKER['torf']
+    out = []
+    jobs = list(jobs)
+    while jobs:
+        r, w = os.pipe()
+        pid = os.fork()
+        if pid == 0:
+            try:
+                os.close(r)
+                import gc
+                gc.collect()
+                gc.freeze()
+                for fam, sizes in jobs:
+                    resource.setrlimit(resource.RLIMIT_CPU, (int(time.process_time()) + UNIT_CPU_CAP + 1, resource.RLIM_INFINITY))
+                    _unit_family_in_child(torf, w, fam, sizes)
+            finally:
+                os._exit(0)
+        os.close(w)
+        buf = b''
+        t_end = time.time() + len(jobs) * (6 * UNIT_CPU_CAP + 30)
+        import select
+        while time.time() < t_end:
+            rl, _, _ = select.select([r], [], [], 1.0)
+            if rl:
+                ch = os.read(r, 65536)
+                if not ch:
+                    break
+                buf += ch
+        else:
+            os.kill(pid, 9)
+        os.close(r)
+        os.waitpid(pid, 0)
+        by = {}
+        for line in buf.decode().splitlines():
+            j = json.loads(line)
+            rec = by.setdefault(j['family'], {'family': j['family'], 'points': [], 'killed_at': None, 'done': False})
+            if 'start' in j:
+                rec['killed_at'] = {'start': j['start'], 'len': j['len']}
+            elif j.get('done'):
+                rec['done'] = True
+            else:
+                rec['points'].append(j)
+                rec['killed_at'] = None
+        rest = []
+        for fam, sizes in jobs:
+            rec = by.get(fam)
+            if rec is None:
+                rest.append((fam, sizes))          # never started: the child died before it
+            else:
+                out.append({k: rec[k] for k in ('family', 'points', 'killed_at')})
+        if len(rest) == len(jobs):                   # no progress at all (fork trouble): give up on these
+            out.extend({'family': f, 'points': [], 'killed_at': None} for f, _ in rest)
+            break
+        jobs = rest
+    return out
+
+
+def _measure_unit_family(job):
+    return _measure_unit_families([job])[0]
+
+
+def _measure_unit_family_chunk(jobs):
+    return _measure_unit_families(jobs)
+
+
+def unit_cost_checks(ctx):
+    import multiprocessing as mp
+    names = unit_family_names(ctx.thorough)
+    ctx.rng.shuffle(names)
+    msizes = [8000, 32000, 128000] if not ctx.thorough else [32000, 128000, 512000]
+    rsizes = [25000, 100000, 400000] if not ctx.thorough else [100000, 400000, 1600000]
+    jobs = [(f, msizes if f.startswith('unit/magnet/') else rsizes) for f in names]
+    common.scratch_root()
+    pool = mp.get_context('fork').Pool(common.NPROC)
+    results, flagged = [], 0
+    try:
+        for part in pool.imap_unordered(_measure_unit_families, [jobs[i:i + 12] for i in range(0, len(jobs), 12)]):
+            results.extend(part)
+            flagged += sum(1 for res in part if res['killed_at'] or any(p.get('flag') for p in res['points']))
+            if flagged >= UNIT_FLAG_LIMIT:
+                break
+    finally:
+        pool.terminate()
+        pool.join()
+    table, worst_ratio, worst_rate, worst_fam = [], 0.0, 0.0, None
+    for res in sorted(results, key=lambda x: x['family']):
+        fam = res['family']
+        steep = False
+        for p in res['points']:
+            ctx.case(key='cost:%s:%d' % (fam, p['n']), nontrivial=True, kind='cost/unit-' + fam.split('/')[1])
+            worst_rate = max(worst_rate, p['cpu'] / max(p['len'], 1))
+            if p.get('prev_cpu') and p['cpu'] >= 0.1:          # the CPU clock of this machine ticks in 4 ms steps
+                g = (p['cpu'] / max(p['prev_cpu'], 4e-3)) / (p['len'] / p['prev_len'])
+                steep = steep or g > 2.5
+                if g > worst_ratio:
+                    worst_ratio, worst_fam = g, fam
+            case = {'family': fam, 'n': p['n'], 'len': p['len'], 'what': 'scaling', 'recipe': _unit_recipe(fam, p['n'])}
+            doc = ('ok', 'magnet', 'url') if fam.startswith('unit/magnet/') else ('ok', 'bdecode', 'metainfo', 'read')
+            if p['kind'] not in doc:
+                ctx.violation(f"{fam} (n={p['n']}): raised {pretty(str(p['kind']))} (documented: {', '.join(doc[1:])})",
+                              dict(case, what='kind'), expected=list(doc), observed=p['kind'], finding_matchers=MATCHERS)
+            if p.get('flag') == 'absolute':
+                ctx.violation(f"{fam}: CPU {p['cpu']:.2f}s for {p['len']} bytes exceeds {TIME_C}*len+{TIME_D}", case,
+                              expected='time <= c*len+d', observed=p, finding_matchers=MATCHERS)
+            elif p.get('flag') == 'superlinear':
+                ctx.violation(f"{fam}: CPU time grows {p['cpu'] / max(p['prev_cpu'], 1e-4):.1f}x when the input grows "
+                              f"{p['len'] / p['prev_len']:.1f}x ({p['prev_cpu']:.3f}s → {p['cpu']:.2f}s): super-linear",
+                              case, expected='linear', observed=p, finding_matchers=MATCHERS)
+        if res['killed_at']:
+            k = res['killed_at']
+            ctx.case(key='cost:%s:%d' % (fam, k['start']), nontrivial=True, kind='cost/unit-' + fam.split('/')[1])
+            ctx.violation(f"{fam}: no result within {UNIT_CPU_CAP} s of CPU time for {k['len']} bytes "
+                          f"(bound {TIME_C}*len+{TIME_D} = {TIME_C * k['len'] + TIME_D:.1f} s)",
+                          {'family': fam, 'n': k['start'], 'len': k['len'], 'what': 'scaling',
+                           'recipe': _unit_recipe(fam, k['start'])},
+                          expected='time <= c*len+d', observed='killed by RLIMIT_CPU', finding_matchers=MATCHERS)
+        if res['killed_at'] or steep or any(p.get('flag') or p['cpu'] >= 0.1 for p in res['points']):
+            table.append({'family': fam, 'points': [{k: p.get(k) for k in ('len', 'cpu', 'kind', 'flag')} for p in res['points']],
+                          'killed_at': res['killed_at']})
+    ctx.notes['unit_families'] = {'families': len(names), 'measured': len(results), 'sizes_magnet': msizes, 'sizes_read': rsizes,
+                                  'worst_cpu_per_byte': worst_rate, 'worst_growth_over_input_growth(cpu>=0.1s)': round(worst_ratio, 2), 'worst_growth_family': worst_fam,
+                                  'rule': f'cpu <= {TIME_C}*len+{TIME_D}; cpu(4n)/cpu(n) <= {UNIT_SLACK}*4 once cpu(4n) >= {SLOW_FLOOR} s '
+                                          f'(minima after re-measuring); killed after {UNIT_CPU_CAP} s CPU',
+                                  'slow_or_flagged': table}
 
 
 def per_input_memory(ctx, read_cases, magnet_cases):
@@ -994,6 +1323,17 @@ def build_read_cases(ctx):
         if k > (0.5 if ctx.thorough else 0.85):
             cases.append(dict(c, validate=r.random() < 0.7, how=r.choice(['file', 'stream'])))
     cases += _expand(r, ugen.md5_near_misses(r, ctx.n(600, 20000)), p_validate=0.8)
+    # number ladder in every numeric field, in torrents that are valid around the number
+    for c in ugen.number_ladder():
+        cases.append(dict(c, validate=True, how='bytes'))
+        k = r.random()
+        if ctx.thorough or k < 0.35:
+            cases.append(dict(c, validate=False, how='bytes'))
+        if k > (0.5 if ctx.thorough else 0.9):
+            cases.append(dict(c, validate=r.random() < 0.7, how=r.choice(['file', 'stream'])))
+    # short runs of every byte unit at every position of every text field
+    pad = ugen.read_padding()
+    cases += _expand(r, pad if ctx.thorough else r.sample(pad, len(pad) // 2), p_validate=0.75)
     cases += _expand(r, ugen.exhaustive_small(6 if ctx.thorough else 4), hows=False)
     # truncation at every offset of a few seed torrents
     from harness.gen import metainfo as gen
@@ -1022,6 +1362,7 @@ def build_magnet_cases(ctx):
     cases = [dict(c, kind='corpus/' + c.get('kind', 'magnet')) for c in _load_corpus(ctx) if 'uri' in c]
     cases += ugen.magnet_fixed()
     cases += ugen.magnet_sizes(thorough=ctx.thorough)
+    cases += ugen.magnet_padding()
     cases += ugen.magnet_random(r, ctx.n(8000, 300000))
     return cases
 
@@ -1039,6 +1380,14 @@ def run(ctx, drv):
         'validate()/dump()/infohash of returned torrents: C08_returned_* use C07_validate_only_metainfo_error (imported, proved) '
         'under filesNotMapping (finding D07f); magnet() of a returned torrent is judged against {ok, MetainfoError} except for '
         'URLError/TypeError from its getter tail after infohash succeeded (C07 finding D07i: counted, not judged)',
+        'str.strip() is modelled in Lean (Model/PyStrip.lean: isPySpace = str.isspace(), compared over all Unicode scalar values '
+        'on every run; the stripped string and the step count are compared on every magnet case); urlparse is applied to the '
+        'stripped string',
+        'every judged case runs in a forked child whose RLIMIT_CPU is moved forward per case (4 x the claimed bound, 10..60 s): '
+        'an input on which the code hangs is reported as a violation of the time bound after that many CPU seconds',
+        'repeated-unit families: bound cpu <= c*len+d as for every call; growth rule cpu(4n) <= 8*cpu(n) once cpu(4n) >= 0.4 s, '
+        'minima after re-measuring (quadratic = 16x); CPU time, not wall time, so machine load does not enter except through '
+        'SMT / cache contention',
         'time and memory of CPython are measured (CPU seconds, peak RSS, peak address space in a forked child), not proved; '
         'claimed bound: %g s/byte + %g s, RSS %d B/byte + %d MiB' % (TIME_C, TIME_D, RSS_C, RSS_D >> 20),
         'byte strings longer than MAX_TORRENT_FILE_SIZE are outside the property ("up to the read limit"): '
@@ -1050,6 +1399,10 @@ def run(ctx, drv):
                                  'urlparse / unquote / datetime / int() behaviour enters as oracle values per case; '
                                  'the Lean model of parse_qs is validated against urllib.parse.parse_qs on every magnet case']
     phase = ctx.notes.setdefault('phase_s', {})
+    # the model's white space (str.strip()) against CPython's, over all Unicode scalar values
+    sp = drv.run([{'op': 'c08.isspace'}])[0]['space']
+    if sp != [n for n in range(0x110000) if not 0xd800 <= n <= 0xdfff and chr(n).isspace()]:
+        ctx.machinery_error('isPySpace (Model/PyStrip.lean) is not str.isspace()', {'model': sp})
     t0 = time.time()
     rc = build_read_cases(ctx)
     phase['build_read_cases'] = round(time.time() - t0, 1)
@@ -1078,6 +1431,9 @@ def run(ctx, drv):
             outside[label] = ekind(e)
     ctx.notes['outside_quantifier_non_bytes'] = outside
     cost_checks(ctx)
+    t1 = time.time()
+    unit_cost_checks(ctx)
+    phase['unit_cost_checks'] = round(time.time() - t1, 1)
     if ctx.thorough:
         per_input_memory(ctx, rc, mc)
     phase['cost_checks'] = round(time.time() - t0, 1)
@@ -1112,9 +1468,17 @@ def replay(ctx, drv, rp):
         c = {'kind': 'replay', 'x': bytes.fromhex(case['x']), 'validate': case.get('validate', True),
              'how': case.get('how', 'bytes'), 'rl': case.get('rl')}
         evaluate_read(ctx, drv, [c])
+    elif 'family' in case and case['family'].startswith('unit/'):
+        res = _pmap(_measure_unit_family_chunk, [[(case['family'], [max(1, case['n'] // 4), case['n']])]], 400)[0]
+        res = res and res[0]
+        return {'fails': bool(res and (res['killed_at'] or any(p.get('flag') for p in res['points']))), 'measure': res}
     elif 'family' in case:
-        r = _pmap(_measure_chunk, [[(case['family'], case['n'], True)]], 400)[0]
-        return {'fails': bool(r and (r[0].get('timeout') or r[0]['cpu'] > TIME_C * r[0]['len'] + TIME_D)), 'measure': r}
+        r = _pmap(_measure_chunk, [[(case['family'], max(1, case['n'] // 4), True)], [(case['family'], case['n'], True)]], 800)
+        a, b = (r[0] or [None])[0], (r[1] or [None])[0]
+        fails = bool(b and (b.get('timeout') or b['cpu'] > TIME_C * b['len'] + TIME_D))
+        if a and b and not a.get('timeout') and not b.get('timeout') and b['cpu'] >= SLOW_FLOOR:
+            fails = fails or b['cpu'] / max(a['cpu'], 1e-3) > RATIO_SLACK * (b['len'] / a['len'])
+        return {'fails': fails, 'measure': [a, b]}
     else:
         return {'fails': False, 'note': 'replay without a concrete input: ' + str(rp.get('broken'))}
     return {'fails': bool(ctx.violations or ctx.known), 'violations': ctx.violations[:3],
